@@ -98,7 +98,16 @@ pub fn run_scripted(text: &str, file: Option<&str>, names: &[String], queue: &st
     for (k, v) in vars {
         context.variables.insert(k.clone(), v.clone());
     }
-    let env = Env::new(Some(Box::new(Sink)), Some(Box::new(Sink)), Some(halt.clone()));
+    // every shape of `Env::new(out, err, halt)`: the embedder's flag must be the one the runner
+    // polls whichever writers are given (scripted commands print nothing; a shape without `out`
+    // is only used for texts without a `!print` line)
+    let shape = if text.contains("!print") { 0 } else { crate::hash_str(text) % 4 };
+    let env = match shape {
+        0 => Env::new(Some(Box::new(Sink)), Some(Box::new(Sink)), Some(halt.clone())),
+        1 => Env::new(Some(Box::new(Sink)), None, Some(halt.clone())),
+        2 => Env::new(None, Some(Box::new(Sink)), Some(halt.clone())),
+        _ => Env::new(None, None, Some(halt.clone())),
+    };
     let res = match file {
         Some(f) => duckscript::runner::run_script_file(f, context, Some(env)),
         None => duckscript::runner::run_script(text, context, Some(env)),
